@@ -54,7 +54,7 @@ def run(ck, prog, tier, load):
         d = prog.one(pat)
         nm = ret_sites(d, lambda e: agg_chain(e)[0][:2] == ["core::result::Result::Ok", "core::option::Option::None"])
         ck.anchor("C05-b", len(nm), 1, "need-more return of %s head decode" % what)
-        hl = cmp_pred("Lt", lambda e: bool(e_calls(e, r"BytesMut::len$")) and any(r[0] == "arg" and r[2] == "src" for r in e_roots(e)), lambda e: e_has_const(e, r"decoder::MAX_BUFFER_SIZE$"), True)
+        hl = cmp_pred("Lt", lambda e: bool(e_calls(e, r"BytesMut::len$")) and root_is(e, args_of_type(d, r"BytesMut$")), lambda e: e_has_const(e, r"decoder::MAX_BUFFER_SIZE$"), True)
         for bb, e in nm:
             ok, wit = guarded_by(d, bb, hl)
             ck.ob("C05-b.head-need-more-bounded", what, ok, d, bb, "`Ok(None)` (need more bytes for the head) only while src.len() < MAX_BUFFER_SIZE", witness=d.path_lines(wit))
